@@ -254,12 +254,18 @@ Lemma ps_dump_modattrs_throws_refuted :
   fst (ps_modify_attribute ps_w_fe ps_w_path_a (PsNum 5 0) true 1%Z o) = true /\ ps_dump_modattrs o1 = None.
 Proof. vm_compute. repeat split. Qed.
 
-(* six decimals: 0.1234567 comes back as 0.123457 *)
+(* six decimals (the writer as pinned, rt = false): 0.1234567 comes back as 0.123457, 0.0000001 as 0 *)
 Lemma ps_modattr_precision_refuted :
+  ps_writer_codec_m false (PsNum 1234567 7) = PsNum 123457 6 /\ ps_writer_codec_m false (PsNum 1 7) = PsNum 0 0 /\
+  ps_writer_codec_m false (PsDict [([97], PsArr [PsNum 1234567 7])]) = PsDict [([97], PsArr [PsNum 123457 6])].
+Proof. vm_compute. repeat split. Qed.
+
+(* the same modification through the writer the source has now (fix 1e5729f): dump + reload gives 0.1234567 back *)
+Lemma ps_modattr_precision_fixed :
   let o := ps_w_obj (PsDict [([97], PsNum 1 0)]) in
   let o1 := snd (ps_modify_attribute ps_w_fe ps_w_path_a (PsNum 1234567 7) true 1%Z o) in
   exists script, ps_dump_modattrs o1 = Some script /\
-    ps_get_attr ps_w_path_a (snd (ps_replay_modattrs ps_w_fe script 1%Z 9%Z o)) = PsNum 123457 6.
+    ps_get_attr ps_w_path_a (snd (ps_replay_modattrs ps_w_fe script 1%Z 9%Z o)) = PsNum 1234567 7.
 Proof. eexists. vm_compute. split; reflexivity. Qed.
 
 (* non-vacuity of ps_restore_after_modify's premises, nested and missing leaf *)
